@@ -10,7 +10,7 @@ distance to the convex core for spheropolyhedra."""
 
 import numpy as np
 
-from .. import contracts, gen, geom, points
+from .. import aging, contracts, gen, geom, points
 
 PROPERTY = "C05"
 MARGIN = 1e-6
@@ -29,7 +29,7 @@ ANCHORS = ["coxeter.shapes.convex_polyhedron:ConvexPolyhedron.is_inside", "coxet
 REQUIRED_MONITORS = ["ConvexPolyhedron.is_inside", "Polyhedron.is_inside", "Sphere.is_inside", "Ellipsoid.is_inside",
                      "ConvexSpheropolyhedron.is_inside", "batch-vs-single", "oracle-second-opinion:voxel-lookup"]
 REQUIRED_CLASSES = ["Polyhedron:voxel-aligned", "Polyhedron:voxel", "Polyhedron:extrusion", "Polyhedron:perturbed",
-                    "ConvexPolyhedron", "Sphere", "Ellipsoid", "ConvexSpheropolyhedron", "form:(3,)", "batch:2000"]
+                    "ConvexPolyhedron", "Sphere", "Ellipsoid", "ConvexSpheropolyhedron", "form:(3,)", "batch:2000", "history:aged-object"]
 
 _cache = {}
 
@@ -166,25 +166,35 @@ def run_case(i, rng, rec, tier, state):
     nb = int(BATCHES[int(rng.integers(len(BATCHES)))]) if i % 11 else 2000
     info = {"class": which, "batch": nb}
     convex_shape = True
+    # three cases in ten judge an object with a past (reads, resizes, moves through the public API) instead of a new one
+    aged = (i // 6) % 10 in (2, 5, 8)
+    if aged:
+        rec.cls("history:aged-object")
     if which == "ConvexPolyhedron":
         c = gen.convex_case(rng)
         V = c["P"]
         s = cs.ConvexPolyhedron(V.copy())
+        if aged:
+            info["history"] = aging.age(s, rng)
+            V = np.array(s.vertices, float)
         h = geom.hull_facets(V)
-        pts = points.points3d(rng, V, h.tris(), nb, lattice=bool(c.get("exact")))
+        pts = points.points3d(rng, V, h.tris(), nb, lattice=bool(c.get("exact")) and not aged)
         rec.cls("ConvexPolyhedron")
         info.update(kind=c["kind"], vertices=V)
     elif which == "Polyhedron":
         c = gen.mesh_case(rng, kinds=("voxel", "voxel", "extrusion", "perturbed"), aligned_frac=0.4)
         V, faces = c["V"], c["faces"]
         s = cs.Polyhedron(V.copy(), [list(f) for f in faces], faces_are_convex=True)
+        if aged:
+            info["history"] = aging.age(s, rng, allow=("size", "move", "rigid"))
+            V = np.array(s.vertices, float)
         tris = geom.faces_to_tris(V, faces)
-        pts = points.points3d(rng, V, tris, nb, lattice=bool(c["aligned"]) and c["kind"] == "voxel" and np.allclose(c["A"], np.eye(3)))
+        pts = points.points3d(rng, V, tris, nb, lattice=bool(c["aligned"]) and c["kind"] == "voxel" and np.allclose(c["A"], np.eye(3)) and not aged)
         tag = c["kind"] + ("-aligned" if c["aligned"] and c["kind"] in ("voxel", "extrusion") else "")
         rec.cls("Polyhedron:" + tag)
         convex_shape = False
         info.update(kind=tag, vertices=V, faces=faces)
-        if c["kind"] == "voxel":
+        if c["kind"] == "voxel" and not aged:
             # second opinion for the oracle: cell lookup through the inverse affine map
             cells = set(c["cells"])
             q = (pts - c["t"]) @ np.linalg.inv(c["A"]).T
@@ -200,6 +210,9 @@ def run_case(i, rng, rec, tier, state):
         (r,), _ = gen.axes_case(rng, 1)
         cen, _ = gen.center_case(rng, r)
         s = cs.Sphere(r, cen)
+        if aged:
+            info["history"] = aging.age(s, rng)
+            r, cen = float(s.radius), np.array(s.centroid, float)
         pts = _curved_points(rng, cen, [r, r, r], nb)
         rec.cls("Sphere")
         info.update(radius=r, center=cen)
@@ -207,6 +220,9 @@ def run_case(i, rng, rec, tier, state):
         ax, _ = gen.axes_case(rng, 3)
         cen, _ = gen.center_case(rng, max(ax))
         s = cs.Ellipsoid(ax[0], ax[1], ax[2], cen)
+        if aged:
+            info["history"] = aging.age(s, rng)
+            ax, cen = [float(s.a), float(s.b), float(s.c)], np.array(s.centroid, float)
         pts = _curved_points(rng, cen, ax, nb)
         rec.cls("Ellipsoid")
         info.update(axes=ax, center=cen)
@@ -221,6 +237,9 @@ def run_case(i, rng, rec, tier, state):
         size = gen.diameter(V)
         r = float(np.exp(rng.uniform(np.log(1e-3), np.log(10)))) * size
         s = cs.ConvexSpheropolyhedron(V.copy(), r)
+        if aged:
+            info["history"] = aging.age(s, rng)
+            V, r = np.array(s.vertices, float), float(s.radius)
         nb = min(nb, 400)
         h = geom.hull_facets(V)
         tris = h.tris()
